@@ -167,6 +167,7 @@ TOT_ALPHA = S("hash", "star", "us", "bt", "tilde", "pipe", "dash", "gt", "lb", "
               "lt", "num", "box", "colon", "sp", "tab", "nl", "a", "e", "nul", "ff", "eq", "fnref", "fndef", "dd", "fence")
 TOT_CORE = S("hash", "star", "us", "bt", "tilde", "pipe", "dash", "gt", "lb", "rb", "lp", "bang", "dollar", "bs", "lt", "num",
              "box", "colon", "sp", "nl", "a", "dd")
+TOT_CORE8 = S("star", "us", "bt", "lb", "rb", "dollar", "sp", "nl", "a")
 DEEP = S("gt", "li", "star", "us", "lb", "bt", "lp", "bang", "dollar", "tilde", "num", "qq", "frac", "sqrt", "bs", "lt", "indent", "tab")
 
 BASE = dict(
@@ -198,7 +199,7 @@ def cfg_of(ctx, name, lay, invariants, properties=()):
 def tiers(ctx):
     q = ctx.tier == "quick"
     allmasks = frozenset(range(256))
-    optmasks = frozenset(range(64, 128)) | S(DEFAULT, 0, 255, 128 + 21) if q else allmasks
+    optmasks = frozenset(range(128, 192, 2)) | frozenset(range(1, 64, 6)) | S(DEFAULT, 0, 255, 64 + 21) if q else allmasks
     mc = layer(MaxNodes=3 if q else 4, MaxDepth=1, MaxInl=2, Atoms=S("w1", "e1"), Inls=S("em", "st", "code", "del") if q else S("em", "st", "code", "del", "math"),
                TopKinds=S("p", "h", "ul", "q", "fence", "tbl", "mathb"), InKinds=S("p", "ul"),
                HLevels=S(1, 3), HStyles=S("atx", "setext") if not q else S("atx"), Tasks=S("none", "open"), AllowSB=True,
@@ -213,13 +214,16 @@ def tiers(ctx):
                        CodeAtoms=S("w1", "m1", "x1") if q else S("w1", "m1", "m2", "x1", "u1"),
                        Inls=S("em", "code", "link"), TopKinds=S("p", "h", "ul", "q"), InKinds=S("p"), HLevels=S(3)),
         # every block kind with its code / table / formula shapes, in every pair
-        "blocks": layer(MaxNodes=3 if q else 4, MaxDepth=1, MaxInl=1, MaxKids=1, Atoms=S("w1"), Inls=S(),
+        "blocks": layer(MaxNodes=2 if q else 3, MaxDepth=1, MaxInl=1, MaxKids=1, Atoms=S("w1"), Inls=S(),
                         TopKinds=ALL_TOP, InKinds=S("p", "fence", "hr", "h"), HLevels=S(1, 4) if q else S(1, 2, 3, 4, 5, 6),
                         HStyles=S("atx", "setext"), Tasks=S("none"),
                         LineSeqs="LS_quick" if q else "LS_full", TblShapes="TS_quick" if q else "TS_full",
                         CellSeq="CS_quick" if q else "CS_full"),
+        # every pair of block kinds next to each other
+        "pairs": layer(MaxNodes=4, MaxDepth=1, MaxInl=1, MaxKids=1, Atoms=S("w1"), Inls=S(), TopKinds=ALL_TOP, InKinds=S("p"),
+                       HLevels=S(3), HStyles=S("atx", "setext"), Tasks=S("none")),
         # containers nested two deep: quotes, lists, items with several blocks, task states
-        "nesting": layer(MaxNodes=5 if q else 6, MaxDepth=2, MaxInl=1, MaxKids=2, Atoms=S("w1", "w2"), Inls=S("em") if q else S("em", "code"),
+        "nesting": layer(MaxNodes=6 if q else 7, MaxDepth=2, MaxInl=1, MaxKids=3, Atoms=S("w1"), Inls=S() if q else S("em"),
                          TopKinds=S("p", "ul", "ol", "q", "fence", "h"), InKinds=S("p", "ul", "ol", "q", "fence", "h"), HLevels=S(2),
                          Tasks=S("none", "open", "done"), AllowSB=True),
         # every option combination and TOC level on the smallest documents of every kind
@@ -227,7 +231,7 @@ def tiers(ctx):
                          TopKinds=ALL_TOP, InKinds=S("p"), HLevels=S(1, 2, 4), Tasks=S("none", "open", "done"),
                          OVMasks=optmasks, UMasks=S(DEFAULT, 0, 190, 189, 183, 187)),
         # every way of calling the converter
-        "calls": layer(MaxNodes=3, MaxDepth=1, MaxInl=1, MaxKids=2, Atoms=S("w1", "w2"), Inls=S("st", "code"),
+        "calls": layer(MaxNodes=3, MaxDepth=1, MaxInl=1, MaxKids=1, Atoms=S("w1"), Inls=S("st"),
                        TopKinds=S("p", "h", "ul", "fence", "tbl", "q"), InKinds=S("p"), HLevels=S(2),
                        OVMasks=S(DEFAULT, 0) if q else S(DEFAULT, 0, 128 + 42, 21),
                        OVApis=S("string", "bytes", "file", "batch"), OVCos=S("nil", "same"), OVWarms=vlib.Raw("{FALSE, TRUE}")),
@@ -242,7 +246,7 @@ def tiers(ctx):
     tot = [
         # (name, alphabet, length, masks)
         ("tot_full", TOT_ALPHA, 2 if q else 3, S(DEFAULT, 0) if q else S(DEFAULT, 0, 255, 128 + 42)),
-        ("tot_core", TOT_CORE, 3 if q else 4, S(DEFAULT)),
+        ("tot_core", TOT_CORE8 if q else TOT_CORE, 4, S(DEFAULT)),
         ("tot_opts", TOT_ALPHA, 1 if q else 2, allmasks),
     ]
     deep = dict(DeepToks=DEEP, DeepNs=S(200, 3000) if q else S(200, 3000, 40000), MaskSet=S(DEFAULT) if q else S(DEFAULT, 0))
@@ -353,7 +357,7 @@ def pipeline(ctx, replay_case=None):
     for name, alpha, n, masks in tot:
         jobs.append(dict(tag=name, cfg=cfg_of(ctx, "gen_%s.cfg" % name, layer(Mode="tot", TotToks=alpha, TotLen=n, MaskSet=masks), ["Emit"]), timeout=1500))
     jobs.append(dict(tag="tot_sim", cfg=cfg_of(ctx, "gen_totsim.cfg", layer(Mode="tot", TotToks=TOT_ALPHA, TotLen=8 if q else 14, MaskSet=S(DEFAULT, 0)), ["Emit"]),
-                     mode="sim", num=60 if q else 1500, depth=9 if q else 15, limit=2000 if q else 40000, timeout=600))
+                     mode="sim", num=20 if q else 1500, depth=9 if q else 15, limit=600 if q else 40000, timeout=600))
     jobs.append(dict(tag="deep", cfg=cfg_of(ctx, "gen_deep.cfg", layer(Mode="deep", **deep), ["Emit"]), timeout=300))
     by_tag, mcout = gen_par(ctx, jobs, also)
     for out in mcout:
